@@ -80,7 +80,7 @@ def _eligible(prog: Program, h: FuncInfo) -> bool:
         if not PUBLIC_EXPR_HELPERS:
             return False
     for d in n.decorator_list:
-        if not (isinstance(d, ast.Name) and d.id == "staticmethod"):
+        if not (isinstance(d, ast.Name) and d.id in ("staticmethod", "classmethod")):
             return False
     a = n.args
     if a.vararg or a.kwarg:
@@ -390,7 +390,12 @@ class Inliner:
             if not isinstance(call.func, ast.Attribute):
                 return None
             recv = call.func.value
-            if not (isinstance(recv, ast.Name) and recv.id == "self"):
+            is_cm = any(isinstance(d, ast.Name) and d.id == "classmethod" for d in h.node.decorator_list)
+            if is_cm:
+                # cls._helper(...) from another classmethod of the hierarchy: `cls` stays `cls`
+                if not (isinstance(recv, ast.Name) and recv.id == "cls" and r.fn.params()[:1] == ["cls"]):
+                    return None
+            elif not (isinstance(recv, ast.Name) and recv.id == "self"):
                 return None
         b = bind_args(call, h, bound=is_method)
         a = h.node.args
@@ -419,7 +424,7 @@ class Inliner:
         prelude: list[ast.stmt] = []
         if is_method:
             self_name = pos[0].arg
-            if self_name != "self":
+            if self_name != (recv.id if isinstance(recv, ast.Name) else "self"):
                 exprs[self_name] = recv
         for p in params:
             v = b.get(p, defaults.get(p))
@@ -481,6 +486,7 @@ class Inliner:
             finally:
                 self.only_module_level = False
         n = _filter_loops(fn)
+        n += _callable_choice(fn)
         n += self._block(r, fn, fn.node.body)
         n += self._expr_helpers(r, fn)
         return n
@@ -695,6 +701,55 @@ class Inliner:
             return None
 
         return walk(e)
+
+
+def _callable_choice(fn: FuncInfo) -> int:
+    """`f = A if C else B` followed by the single use `f(args)`   ==>   `if C: A(args)  else: B(args)`: a callable picked by a
+    conditional expression is a branch like any other (the write that happens under the flag is then visible as such)."""
+    n = 0
+
+    def uses(stmts, name):
+        return [x for st in stmts for x in ast.walk(st) if isinstance(x, ast.Name) and x.id == name]
+
+    def rewrite_block(stmts: list[ast.stmt]) -> None:
+        nonlocal n
+        i = 0
+        while i < len(stmts):
+            st = stmts[i]
+            for fld in ("body", "orelse", "finalbody"):
+                sub = getattr(st, fld, None)
+                if isinstance(sub, list) and sub and isinstance(sub[0], ast.stmt) and not isinstance(st, (ast.FunctionDef, ast.AsyncFunctionDef, ast.ClassDef)):
+                    rewrite_block(sub)
+            for h in getattr(st, "handlers", []) or []:
+                rewrite_block(h.body)
+            if (isinstance(st, ast.Assign) and len(st.targets) == 1 and isinstance(st.targets[0], ast.Name) and isinstance(st.value, ast.IfExp)
+                    and all(isinstance(x, (ast.Name, ast.Attribute)) for x in (st.value.body, st.value.orelse)) and i + 1 < len(stmts)):
+                name = st.targets[0].id
+                nxt = stmts[i + 1]
+                call = None
+                if isinstance(nxt, ast.Expr) and isinstance(nxt.value, ast.Call):
+                    call = nxt.value
+                elif isinstance(nxt, (ast.Return, ast.Assign)) and isinstance(nxt.value, ast.Call):
+                    call = nxt.value
+                all_uses = uses(fn.node.body, name)
+                if call is not None and isinstance(call.func, ast.Name) and call.func.id == name and len(all_uses) == 2 \
+                        and not any(isinstance(x, ast.Name) and x.id == name for a in list(call.args) + [k.value for k in call.keywords] for x in ast.walk(a)):
+                    def variant(callee):
+                        st2 = copy.deepcopy(nxt)
+                        c2 = st2.value
+                        c2.func = copy.deepcopy(callee)
+                        return st2
+                    new_if = ast.If(test=st.value.test, body=[variant(st.value.body)], orelse=[variant(st.value.orelse)])
+                    ast.copy_location(new_if, st)
+                    stmts[i:i + 2] = [new_if]
+                    n += 1
+                    continue
+            i += 1
+
+    rewrite_block(fn.node.body)
+    if n:
+        ast.fix_missing_locations(fn.node)
+    return n
 
 
 def _filter_loops(fn: FuncInfo) -> int:
